@@ -1,4 +1,301 @@
+//! vx-c20 — check of property C20: the parking_lot / dashmap / deterministic collections / rand /
+//! lazy_static replacements keep their contracts.
+//!
+//! Parts: (A) `pl` E2 family (lock_api contract model), (B) `dash` E2 family (plain map + single
+//! lock), (C) exhaustive enumeration of operation histories of the deterministic collections
+//! (in-process twice + a separate child process), (D) `wrand` (model check with the constant data
+//! menu + C01 replay oracle) and `wiso` (C14 isolation oracle) families over the rand / lazy_static
+//! wrappers.
+mod coll;
+mod fam_dash;
+mod fam_pl;
+mod fam_wiso;
+mod fam_wrand;
+mod stackcache;
+
+use serde_json::json;
+use vx::common::{finish, CheckCtx, CheckResult, Tier};
+use vx::drive::{self, FamRunner, FamilyDyn, Mode, VKind};
+
+fn registry() -> Vec<Box<dyn FamilyDyn>> {
+    vec![
+        Box::new(FamRunner::new(fam_pl::program_set)),
+        Box::new(FamRunner::new(fam_dash::program_set)),
+        Box::new(FamRunner::new(fam_wrand::program_set)),
+        Box::new(FamRunner::new(fam_wiso::program_set)),
+    ]
+}
+
+fn family(name: &str) -> Box<dyn FamilyDyn> {
+    registry().into_iter().find(|f| f.name() == name).unwrap_or_else(|| {
+        eprintln!("MACHINERY-ERROR: unknown family {}", name);
+        std::process::exit(2)
+    })
+}
+
+fn cov_u64(res: &CheckResult, k: &str) -> u64 {
+    res.coverage.get(k).and_then(|v| v.as_u64()).unwrap_or(0)
+}
+
+/// Run one E2 part and record its own counts under `part`.
+fn run_part(ctx: &CheckCtx, res: &mut CheckResult, part: &str, items: &[(&str, &str, Mode)], wanted: &[VKind], deadline: f64) {
+    let keys = ["programs", "evaluations", "distinct_nontrivial", "states", "transitions", "traces_validated_against_impl", "scheduling_decisions", "programs_full_tree", "programs_capped", "programs_skipped_deadline"];
+    let before: Vec<u64> = keys.iter().map(|k| cov_u64(res, k)).collect();
+    let nf = res.findings.len();
+    let t0 = std::time::Instant::now();
+    vx::checks::run_e2_with(ctx, res, items, wanted, deadline, &family);
+    let mut m = serde_json::Map::new();
+    for (k, b) in keys.iter().zip(before) {
+        m.insert(k.to_string(), json!(cov_u64(res, k) - b));
+    }
+    m.insert("findings".into(), json!(res.findings.len() - nf));
+    m.insert("wall_s".into(), json!(t0.elapsed().as_secs_f64()));
+    res.cov(part, serde_json::Value::Object(m));
+}
+
+fn c20(ctx: &CheckCtx) -> CheckResult {
+    let mut res = CheckResult::new("model_checking");
+    let thorough = ctx.tier.is_thorough();
+    let set = if thorough { "thorough" } else { "quick" };
+    let total_deadline: f64 = if thorough { 1380.0 } else { 38.0 };
+    let t0 = std::time::Instant::now();
+    let left = |frac: f64| -> f64 { ((total_deadline - t0.elapsed().as_secs_f64()) * frac).max(2.0) };
+
+    // (C) runs in background threads / child processes while the E2 parts use the worker processes
+    let coll_handle = {
+        let thorough = thorough;
+        std::thread::spawn(move || coll::run(thorough))
+    };
+
+    let conf = Mode {
+        complete: false,
+        ..Mode::default()
+    };
+    let wanted = [VKind::Sound, VKind::Enabled, VKind::Ending, VKind::Abort];
+    // (A) parking_lot
+    run_part(ctx, &mut res, "part_A_parking_lot", &[("pl", set, conf.clone())], &wanted, left(0.55));
+    // (B) dashmap
+    run_part(ctx, &mut res, "part_B_dashmap", &[("dash", set, conf.clone())], &wanted, left(0.6));
+    // (D)(i) rand wrapper: every value is what the scheduler handed out (model check under the
+    // constant data menu), and every execution replays identically from its recorded schedule
+    let replay = Mode {
+        replay_check: true,
+        seed: ctx.seed,
+        max_execs: 50_000,
+        ..Mode::default()
+    };
+    let mut wanted_d = wanted.to_vec();
+    wanted_d.push(VKind::Other("Replay".into()));
+    wanted_d.push(VKind::Other("Isolation".into()));
+    let mut items_d: Vec<(&str, &str, Mode)> = vec![("wrand", set, conf.clone()), ("wrand", set, replay.clone())];
+    if thorough {
+        items_d.push(("wrand", set, Mode { seed: 1, ..replay.clone() }));
+        items_d.push(("wrand", set, Mode { seed: 0xdead_beef, ..replay.clone() }));
+    }
+    run_part(ctx, &mut res, "part_D_rand_wrapper", &items_d, &wanted_d, left(0.6));
+    // (D)(ii) lazy_static wrapper: re-initialised per execution (C14 oracle)
+    let iso = Mode {
+        iso_check: true,
+        iso_max_b: if thorough { 0 } else { 6 },
+        max_execs: if thorough { 3000 } else { 400 },
+        ..Mode::default()
+    };
+    run_part(ctx, &mut res, "part_D_lazy_static_wrapper", &[("wiso", "quick", iso)], &wanted_d, left(0.9));
+
+    // (C) results
+    match coll_handle.join() {
+        Ok(c) => c.fold_into(&mut res),
+        Err(_) => res.machinery_errors.push("collections enumeration thread panicked".into()),
+    }
+
+    res.cov(
+        "rule",
+        format!(
+            "{}; part A: programs over the lock_api operations of the parking_lot replacement (bodies generated from the per-thread guard state, pairs / triples of bodies, 1-2 locks), reference model = lock_api contract + the documented two-stage FIFO discipline, findings F7/F8 encoded as weakened models selected by the operations a program contains, plus a model-independent holder ledger over every accepted execution; part B: programs over DashMap/DashSet operations on 2 keys, model = plain map + one reader/writer lock held by every operation and guard (co-simulation = linearizability w.r.t. the sequential map, real-time order included); part C: see collections_rule; part D: rand-wrapper bodies model-checked under the explorer's constant data menu (every drawn value must be the value the scheduler handed out) and replayed from the recorded schedule string, lazy_static-wrapper bodies under the C14 pair oracle",
+            vx::checks::e2_rule()
+        ),
+    );
+    res.assumptions.push("small-scope: programs / histories up to the stated size only".into());
+    res.assumptions.push("parking_lot: FIFO hand-off among blocked requests is taken from raw_rwlock.rs's own documentation (strictly fair semaphores); return values of try_* are judged against the contract only".into());
+    res.assumptions.push("collections: a collection whose BuildHasher differs from the fixed one is reported even when the 3-key iteration orders happen to coincide (the hasher probe is the deterministic oracle; observed order differences are recorded as witnesses)".into());
+    res
+}
+
+fn replay_file(id: &str, path: &str) -> ! {
+    let s = std::fs::read_to_string(path).unwrap_or_else(|e| {
+        eprintln!("cannot read {}: {}", path, e);
+        std::process::exit(2)
+    });
+    let doc: serde_json::Value = serde_json::from_str(&s).expect("replay json");
+    let r = &doc["replay"];
+    println!("property {} key {}", id, doc["key"]);
+    println!("reported: {}", doc["what"]);
+    match r["engine"].as_str() {
+        Some("e2") => {
+            let fam = family(r["family"].as_str().unwrap());
+            let set = r["set"].as_str().unwrap();
+            let idx = r["idx"].as_u64().unwrap() as usize;
+            let alts: Vec<String> = r["alts"].as_array().unwrap().iter().map(|v| v.as_str().unwrap().to_string()).collect();
+            if fam.describe(set, idx) != r["program"].as_str().unwrap() {
+                println!("note: program list changed since the replay file was written; using index {}", idx);
+            }
+            if alts.is_empty() || alts.iter().any(|a| a == "||") {
+                println!("(finding concerns the whole schedule tree of the program; re-checking the program)");
+                let mode = if fam.name() == "wiso" {
+                    Mode {
+                        iso_check: true,
+                        ..Mode::default()
+                    }
+                } else {
+                    Mode::default()
+                };
+                vx::common::silence_panics();
+                let rep = fam.check_idx(set, idx, &mode);
+                for v in rep.violations {
+                    println!("  {:?}: {}", v.kind, v.what);
+                }
+            } else {
+                vx::common::silence_panics();
+                println!("{}", fam.replay(set, idx, &drive::strings_to_alts(&alts)));
+            }
+        }
+        Some("coll") => coll::replay(r),
+        other => {
+            println!("no replayer for engine {:?}", other);
+            std::process::exit(2);
+        }
+    }
+    std::process::exit(0)
+}
+
+fn run_check(id: &str, tier: Tier) -> ! {
+    if id != "C20" {
+        eprintln!("MACHINERY-ERROR: vx-c20 only checks C20 (got {})", id);
+        std::process::exit(2);
+    }
+    let ctx = CheckCtx::new(id, tier);
+    let res = c20(&ctx);
+    finish(&ctx, res)
+}
+
 fn main() {
-    eprintln!("MACHINERY-ERROR: not built yet");
-    std::process::exit(2);
+    let args: Vec<String> = std::env::args().collect();
+    match args.get(1).map(|s| s.as_str()) {
+        Some("check") => {
+            let id = args.get(2).cloned().unwrap_or_default();
+            match args.get(3).map(|s| s.as_str()) {
+                Some("--replay") => replay_file(&id, args.get(4).expect("replay path")),
+                Some("thorough") => run_check(&id, Tier::Thorough),
+                Some("quick") | None => {
+                    let tier = match std::env::var("VERIF_TIER").as_deref() {
+                        Ok("thorough") => Tier::Thorough,
+                        _ => Tier::Quick,
+                    };
+                    run_check(&id, tier)
+                }
+                Some(x) => {
+                    eprintln!("unknown tier {}", x);
+                    std::process::exit(2)
+                }
+            }
+        }
+        Some("coll-child") => coll::child_main(&args[2..]),
+        Some("coll") => {
+            // coll [thorough]: part C alone
+            let t0 = std::time::Instant::now();
+            let c = coll::run(args.get(2).map(|s| s == "thorough").unwrap_or(false));
+            let mut res = CheckResult::new("model_checking");
+            c.fold_into(&mut res);
+            println!("{}", serde_json::to_string_pretty(&res.coverage["part_C_collections"]).unwrap());
+            for f in &res.findings {
+                println!("FINDING {} :: {}\n   replay {}", f.key, f.what, f.replay);
+            }
+            println!("machinery {:?}; wall {:?}", res.machinery_errors, t0.elapsed());
+        }
+        Some("bench") => {
+            if std::env::var("VX_LOUD").is_err() {
+                let _orig = vx::common::mute_stderr();
+                std::mem::forget(_orig);
+                vx::common::silence_panics();
+            }
+            let fam = family(&args[2]);
+            let i: usize = args[4].parse().unwrap();
+            let t0 = std::time::Instant::now();
+            let r = fam.check_idx(&args[3], i, &Mode::default());
+            println!(
+                "execs {} decisions {} violations {} in {:?}; cosim time {:?}",
+                r.executions,
+                r.decisions,
+                r.violations.len(),
+                t0.elapsed(),
+                vx::drive::COSIM_NANOS.with(|c| std::time::Duration::from_nanos(c.get()))
+            );
+            for v in r.violations.iter().take(3) {
+                println!("  {:?} [{}]: {} :: {:?}", v.kind, v.culprit, v.what, v.alts);
+            }
+        }
+        Some("fam") => {
+            // fam <family> <set> [deadline] [mode: conf|replay|iso]: run one family through the workers, print the aggregate
+            let fam = family(&args[2]);
+            let deadline: f64 = args.get(4).and_then(|s| s.parse().ok()).unwrap_or(600.0);
+            let mode = match args.get(5).map(|s| s.as_str()) {
+                Some("replay") => Mode { replay_check: true, max_execs: 50_000, ..Mode::default() },
+                Some("iso") => Mode { iso_check: true, iso_max_b: 6, max_execs: 400, ..Mode::default() },
+                _ => Mode { complete: false, ..Mode::default() },
+            };
+            let t0 = std::time::Instant::now();
+            let agg = drive::run_family(fam.as_ref(), &args[3], &mode, vx::checks::nshards(), deadline);
+            println!("{}", serde_json::to_string_pretty(&agg.to_json()).unwrap());
+            println!("wall {:?}; machinery errors {:?}", t0.elapsed(), agg.machinery_errors);
+            let mut seen = std::collections::BTreeMap::new();
+            for v in &agg.violations {
+                let k = format!("{:?}/{}", v.kind, v.culprit);
+                let e = seen.entry(k).or_insert((0usize, v.clone()));
+                e.0 += 1;
+            }
+            for (k, (n, v)) in seen {
+                println!("== {} x{}\n   #{} {}\n   {}\n   {:?}", k, n, v.program_idx, v.program, v.what, v.alts);
+            }
+        }
+        Some("list") => {
+            // list <family> <set>: every program, one per line
+            use std::io::Write;
+            let fam = family(&args[2]);
+            let n = fam.len(&args[3]);
+            let out = std::io::stdout();
+            let mut w = std::io::BufWriter::new(out.lock());
+            for i in 0..n {
+                if writeln!(w, "#{} {}", i, fam.describe(&args[3], i)).is_err() {
+                    break;
+                }
+            }
+        }
+        Some("describe") => {
+            // describe <family> <set> <idx>...
+            let fam = family(&args[2]);
+            println!("{} programs", fam.len(&args[3]));
+            for a in &args[4..] {
+                let i: usize = a.parse().unwrap();
+                println!("#{} {}", i, fam.describe(&args[3], i));
+            }
+        }
+        Some("worker") => {
+            // worker <family> <set> <mode-json> <shard> <nshards> <from> <only|-> <deadline>
+            if std::env::var("VX_NO_STACK_CACHE").is_err() {
+                stackcache::enable();
+            }
+            let fam = family(&args[2]);
+            let mode = drive::mode_from_json(&serde_json::from_str(&args[4]).expect("mode json"));
+            let shard: usize = args[5].parse().unwrap();
+            let nshards: usize = args[6].parse().unwrap();
+            let from: usize = args[7].parse().unwrap();
+            let only: Option<usize> = args[8].parse().ok();
+            let deadline: f64 = args[9].parse().unwrap();
+            drive::worker_main(fam.as_ref(), &args[3], &mode, shard, nshards, from, only, deadline);
+        }
+        _ => {
+            eprintln!("usage: vx-c20 check C20 quick|thorough|--replay <file>");
+            std::process::exit(2);
+        }
+    }
 }
